@@ -98,7 +98,7 @@ FORMULAS = {
     "C02": ["Gen.overprod_is_code", "Gen.capacity_is_code", "Gen.capNegative_is_code", "Gen.xOpt_is_code", "Gen.cons_is_code",
             "Gen.production_max_is_code", "Gen.ordersFrom_is_code", "Gen.needWith_is_code"],
     "C03": ["Gen.xOpt_is_code", "Gen.capacity_is_code", "Gen.cons_is_code", "Gen.cons_base_is_code", "Gen.production_max_is_code"],
-    "C18": ["Gen.cons_is_code", "Gen.cons_base_is_code", "Gen.zProd_is_code", "Gen.altShare_is_code", "Gen.ordersFrom_is_code"],
+    "C18": ["Gen.cons_is_code", "Gen.cons_base_is_code", "Gen.zProd_is_code", "Gen.altShare_is_code", "Gen.ordersFrom_is_code", "Gen.gapOpen_is_code"],
     "C06": ["Gen.needWith_is_code", "Gen.zProd_is_code", "Gen.altShare_is_code", "Gen.ordersFrom_is_code", "Gen.gapOpen_is_code", "Gen.goal_is_code"],
     "C04": ["Gen.deliverCell_is_code", "Gen.deliveries_are_code"],
     "C05": ["Gen.stockUse_is_code", "Gen.stockUpdated_is_code", "Gen.deliveries_are_code"],
